@@ -155,6 +155,7 @@ type reqGen struct {
 	noVar bool
 	// fragVar: inside the named fragment being generated; the fragment may use
 	// the variable $fv, which every operation that spreads it then declares
+	envAlias bool
 	inFrag   string
 	fragVars map[string]bool // fragment name -> uses $fv
 }
@@ -569,9 +570,11 @@ func (g *reqGen) selection(typ string, depth int, ind string) string {
 		b.WriteString(ind + "  ")
 		if alias {
 			g.nAli++
-			if !used["\x00data"] && g.t.Bool(1, 6) {
-				// a response key that equals the library's own envelope key
-				used["\x00data"] = true
+			if !g.envAlias && g.t.Bool(1, 6) {
+				// a response key that equals the library's own envelope key (once per
+				// document: inline fragments write into the response object of their
+				// parent, so a second one could collide with it)
+				g.envAlias = true
 				b.WriteString([]string{"data", "errors", "path"}[g.t.Draw(3)] + ": ")
 			} else {
 				b.WriteString("a" + strconv.Itoa(g.nAli) + ": ")
